@@ -644,6 +644,17 @@ def check_witnesses(chk, binary):
 
 
 def main(tier, replay):
+    if replay:
+        # before Check() is constructed: its constructor empties /verif/replay/<ID>/, which is where the file usually lives
+        case = json.load(open(replay))['case']
+        common.build('asan')
+        binary = common.harness('vlua', 'asan')
+        got = run_case(binary, case)
+        for k, m in got:
+            print('still fails: key=%s %s' % (k, m[:300]))
+        if not got:
+            print('case passes')
+        sys.exit(1 if got else 0)
     chk = Check(PROP, tier)
     load_part(chk)
     chk.rule = ('values: seeded random values of the domain {strings over bytes 1..255 incl. empty, number-like ("5", "1e3", "0x10"), Lua-like ("nil", "1+1", "a..b", "]]", quotes); '
@@ -653,8 +664,8 @@ def main(tier, replay):
                 '(numbers exactly as rationals, strings byte-wise, arrays in order, maps key-wise; "5" is not 5; VERBATIM/INTERPRETED and 5 vs 5.0 are not compared). '
                 'evaluations = round trips judged (+ system-variable attempts + witnesses). distinct_nontrivial = distinct values that are containers, reals, large integers or strings that '
                 'are empty/number-like/contain quotes, brackets, dots, minus or non-printable bytes, + distinct system-variable attempts. '
-                'system variables: %d forms of chart code (assign whole/field, <data id>, foreach item/index, script, send idlocation) x 5 variables; the value of all five variables is read '
-                'after an identical event with a harmless transition and after the attempt, and error.execution must be among the events processed after the attempt.') % 6
+                'system variables: %d forms of chart code (assign whole, assign field, <data id>, foreach item, foreach index, script, send idlocation) x 5 variables; the value of all five variables is read '
+                'after an identical event with a harmless transition and after the attempt, and error.execution must be among the events processed after the attempt.') % 7
     chk.assumptions = ['values handed over as uscxml::Data (dm-assign, dm-init, receive) exclude empty containers because Data cannot express them apart from "no value"',
                        'inline <data>/<content> text is written as a Lua literal (the Lua datamodel evaluates text children as Lua, JSON text is not promised by the statement)',
                        'strings are written into documents as Lua literals with decimal escapes, so XML never carries raw control or non-ASCII bytes',
@@ -663,15 +674,8 @@ def main(tier, replay):
                        'an empty container read back as "no value"/empty Data counts as equal (Data has no other representation)']
     common.build('asan')
     binary = common.harness('vlua', 'asan')
-    if replay:
-        got = run_case(binary, json.load(open(replay))['case'])
-        for k, m in got:
-            print('still fails: key=%s %s' % (k, m[:300]))
-        if not got:
-            print('case passes')
-        sys.exit(1 if got else 0)
     if tier == 'quick':
-        n_val, chunk, maxarr = 3000, 250, 14
+        n_val, chunk, maxarr = 4000, 250, 14
     else:
         n_val, chunk, maxarr = 100000, 1000, 40
     jobs = [(binary, chk.rng.getrandbits(48), min(chunk, n_val - i), maxarr) for i in range(0, n_val, chunk)]
